@@ -3,6 +3,7 @@ import KsVerif.Api.Progress
 import KsVerif.Sched.Driver
 import KsVerif.Redis.Driver
 import KsVerif.Kfl.MacroDriver
+import KsVerif.Kfl.Driver
 open KsVerif
 
 /-- One case: family, payload, implementation observation → verdict. -/
@@ -13,6 +14,10 @@ def judge (fam payload impl : String) : Verdict :=
   | "redis.convsplit" => Redis.Driver.judgeConv payload impl (splitMode := true)
   | "redis.raw" => Redis.Driver.judgeRaw payload impl
   | "redis.split" => Redis.Driver.judgeRaw payload impl (splitMode := true)
+  | "kfl.eval" => Kfl.Driver.judgeEval .truth payload impl
+  | "kfl.frame" => Kfl.Driver.judgeEval .frame payload impl
+  | "kfl.fuzz" => Kfl.Driver.judgeFuzz payload impl
+  | "kfl.reuse" => Kfl.Driver.judgeEval .reuse payload impl
   | "kfl.macro" => Kfl.Macro.judge payload impl
   | "sched.emit" => Sched.judgeEmit payload impl
   | "sched.dump" => Sched.judgeDump payload impl
